@@ -152,9 +152,11 @@ async def scenario(world: WorldA) -> None:
         blk = f.spa.struct.status_block
         on_keys = []
         for d in devs:
-            acc = d._state_sensor.accessor if hasattr(d, "_state_sensor") else None
+            # the output's own state item carries the device's key as its name (P1..P5, BL, Waterfall): looked up by that name, not through
+            # the library's table of which item a device watches
+            acc = f.spa.struct.accessors.get(d.key)
             if acc is None:
-                raise HarnessError("device without _state_sensor.accessor")
+                raise HarnessError(f"no state item named {d.key!r} for device {d!r}")
             v = decode(acc, blk)
             if v not in ("OFF", False, "", None):
                 on_keys.append(d.key)
